@@ -177,7 +177,9 @@ func c04Sites(u *universe) []c04Site {
 	// ---- addToESDTBalance ----
 	xferSame := func(r *tkRun, rae bool) *stepResult { return c04TxRAE(r, rae, A, B, "ESDTTransfer", F, be(10)) }
 	xferCrossOrigin := func(r *tkRun, rae bool) *stepResult { return c04TxRAE(r, rae, A, X, "ESDTTransfer", F, be(10)) }
-	xferCross := func(r *tkRun, rae bool) *stepResult { return c04Deliver(r, c04TxRAE(r, false, A, X, "ESDTTransfer", F, be(10))) }
+	xferCross := func(r *tkRun, rae bool) *stepResult {
+		return c04Deliver(r, c04TxRAE(r, false, A, X, "ESDTTransfer", F, be(10)))
+	}
 	for _, b := range []c04Block{frz(A, 0, string(F), true), pau(0, string(F))} {
 		add("addToESDTBalance/ESDTTransfer/sender/same-shard", b, false, nil, xferSame)
 		add("addToESDTBalance/ESDTTransfer/sender/cross-shard", b, false, nil, xferCrossOrigin)
@@ -201,7 +203,9 @@ func c04Sites(u *universe) []c04Site {
 			fn := fn
 			add("saveESDTNFTToken/"+fn, b, false, nil, func(r *tkRun, rae bool) *stepResult { return c04TxRAE(r, rae, A, A, fn, S, be(1), be(2)) })
 		}
-		add("saveESDTNFTToken/ESDTNFTAddURI", b, false, nil, func(r *tkRun, rae bool) *stepResult { return c04TxRAE(r, rae, A, A, "ESDTNFTAddURI", S, be(1), []byte("u")) })
+		add("saveESDTNFTToken/ESDTNFTAddURI", b, false, nil, func(r *tkRun, rae bool) *stepResult {
+			return c04TxRAE(r, rae, A, A, "ESDTNFTAddURI", S, be(1), []byte("u"))
+		})
 		add("saveESDTNFTToken/ESDTNFTUpdateAttributes", b, false, nil, func(r *tkRun, rae bool) *stepResult {
 			return c04TxRAE(r, rae, A, A, "ESDTNFTUpdateAttributes", S, be(1), []byte("a"))
 		})
@@ -230,7 +234,9 @@ func c04Sites(u *universe) []c04Site {
 		})
 	}
 	// ---- esdtNFTTransfer.addNFTToDestination ----
-	nftSame := func(r *tkRun, rae bool) *stepResult { return c04TxRAE(r, rae, A, A, "ESDTNFTTransfer", S, be(1), be(2), B) }
+	nftSame := func(r *tkRun, rae bool) *stepResult {
+		return c04TxRAE(r, rae, A, A, "ESDTNFTTransfer", S, be(1), be(2), B)
+	}
 	nftCross := func(r *tkRun, rae bool) *stepResult {
 		return c04Deliver(r, c04TxRAE(r, false, A, A, "ESDTNFTTransfer", S, be(1), be(2), X))
 	}
@@ -362,6 +368,22 @@ func c04SystemOnly(c *ctx, u *universe, b *tkBudget) {
 	}
 }
 
+// F8 seen through the freeze gate: the system-account address holds a token, the holding is frozen, then ESDTPause on that shard
+// overwrites it (ESDTUnPause does the same but is on the property's exception list)
+func c04SystemAccountHolding(c *ctx, u *universe, b *tkBudget) {
+	w := u.stdWorld(2, 0, distinctGas(33, 3))
+	u.populate(w)
+	base := c.tkNewRun(u, w, "system-account-holding", []monitor{monC04}, b, false)
+	F := u.Fung[0]
+	base.must(base.tx(u.U[0], u.SYS, "ESDTTransfer", bigGas, F, be(100)), "transfer to the system-account address")
+	base.must(base.sysOn(0, u.SYS, "ESDTFreeze", F), "freeze the system-account address")
+	for _, fn := range []string{"ESDTPause", "ESDTUnPause"} {
+		r := base.fork("system-account-holding/" + fn)
+		sr := r.sysOn(0, u.SYS, fn, F)
+		c.count("c04/system-account-holding/" + fn + "/" + c04Status(sr))
+	}
+}
+
 func c04Tune(g *gen) {
 	g.wSystem, g.wTransfer, g.wSupply, g.wDeliver, g.wHostile, g.wAccount = 26, 32, 20, 12, 8, 2
 }
@@ -370,7 +392,7 @@ func init() {
 	runners["C04"] = func(c *ctx) {
 		u := newUniverse()
 		proj := tkProj(false, true)
-		c.rep.Rule = "(1) one scenario family per call site of checkFrozeAndPause (addToESDTBalance; saveESDTNFTToken incl. its second, full-key lookup; esdtNFTTransfer.addNFTToDestination; esdtNFTMultiTransfer.addNFTToDestination) x function x sender / destination side x same / cross shard (destination side through delivery of the real message) x {account frozen, token paused, full key paused}, each on four clones of one world: never blocked (control), blocked, flag set and cleared again (must decide and move balances exactly like the control), blocked with ReturnCallAfterError or refund into a frozen+paused sender (exemptions); on two worlds (system-account address living on shard 0 / shard 1); wipe / unfreeze / unpause by the system contract and by users. extra.site_hits counts, per site, the scenarios in which the control was accepted and the blocked call was refused with the frozen / paused error. " +
+		c.rep.Rule = "(1) one scenario family per call site of checkFrozeAndPause (addToESDTBalance; saveESDTNFTToken incl. its second, full-key lookup; esdtNFTTransfer.addNFTToDestination; esdtNFTMultiTransfer.addNFTToDestination) x function x sender / destination side x same / cross shard (destination side through delivery of the real message) x {account frozen, token paused, full key paused}, each on four clones of one world: never blocked (control), blocked, flag set and cleared again (must decide and move balances exactly like the control), blocked with ReturnCallAfterError or refund into a frozen+paused sender (exemptions); on two worlds (system-account address living on shard 0 / shard 1); wipe / unfreeze / unpause by the system contract and by users; the frozen holding of the system-account address itself followed by ESDTPause / ESDTUnPause (known finding F8). extra.site_hits counts, per site, the scenarios in which the control was accepted and the blocked call was refused with the frozen / paused error. " +
 			"(2) random walks weighted to freeze / unfreeze / pause / unpause / wipe interleaved with transfers, deliveries, refunds, supply functions and hostile calls. After EVERY executed call the monitor reads the flags from the pre-state of the executing shard (frozen bit of the account's fungible entry; 2-byte pause value under ELRONDesdt‖token and ELRONDesdt‖token‖nonce in the shard's system account) and fails if a successful call changed such a balance, except wipe/unfreeze/unpause by the system contract, ReturnCallAfterError calls and the ESDT system contract's own account. " +
 			"Every executed call is re-executed by the Coq model (projection: status + complete post-state). distinct = distinct (world state, operation)."
 		c.tkBegin(proj)
@@ -382,12 +404,13 @@ func init() {
 		hits, misses := map[string]int{}, map[string]int{}
 		c04RunSites(c, u, budget, hits, misses)
 		c04SystemOnly(c, u, &tkBudget{max: 40})
+		c04SystemAccountHolding(c, u, &tkBudget{max: 10})
 		perSite := map[string]int{}
 		for k, v := range hits {
 			perSite[strings.SplitN(k, "/", 2)[0]] += v
 		}
 		c.rep.Extra = map[string]interface{}{"site_hits": hits, "site_misses": misses, "hits_per_call_site": perSite}
-		n, ops, prob, max := 5, 220, 1, 1100
+		n, ops, prob, max := 8, 250, 2, 1000
 		if !quick {
 			n, ops, prob, max = 40, 500, 2, 9000
 		}
